@@ -9,14 +9,17 @@ the formula grammar of Model/Formula.lean with structured operands —
               | "{" [expression {"," expression}] "}"                     (a set; `{}` is the empty set)
               | "{" binding {"," binding} "}"       binding := name [kind] ":" expression     (a record)
               | "{" ":" "}" | "{" mapping {"," mapping} "}"   mapping := expression ":" expression  (a map)
-              | name "[" subscript {"," subscript} "]"      subscript := ":" | expression
+              | name selector {selector}                     subscript := ":" | expression
+                  selector := "[" subscript {"," subscript} "]" | "{" subscript {"," subscript} "}"
+                            | "." name | "." integer | "." name "," name {"," name}   (a swizzle)
               | "(" formula ")" | "-" factor | "!" factor,   each optionally followed by "'"
   statement  := ["~"] name [kind] ":=" expression
-              | name ["[" subscripts "]"] ("=" | "+=" | "-=" | …) expression
+              | name {selector} ("=" | "+=" | "-=" | …) expression
   program    := statement {newline statement}
 
 Tokens stand for lexemes in their canonical spelling: the element separator inside a matrix row is
-its own token (`sp`), a kind annotation is opaque, literals and names are numbered.  Every
+its own token (`sp`), so is the comma inside a swizzle (`swz`: no space may follow it), a kind annotation is
+opaque, literals and names are numbered.  Every
 recursive call spends one unit of fuel (structural recursion); lists are read by the generic
 `sepBy`, which stops at the first token that is not the separator.
 -/
@@ -27,7 +30,7 @@ open MechVerif.Prec
 inductive Tok where
   | lit (n : Nat) | id (n : Nat)
   | lp | rp | lb | rb | lc | rc
-  | comma | semi | sp | colon
+  | comma | semi | sp | colon | dot | swz
   | dots (incl : Bool)
   | op (o : Op) | dash | bang | quote
   | tilde | define | assign | opAssign (k : Nat) | kind (n : Nat) | nl
@@ -42,6 +45,14 @@ inductive Ex (α : Type) where
 inductive Sub (α : Type) where
   | all
   | ex (e : Ex α)
+
+/-- one subscript of a name: `[…]`, `{…}`, `.name`, `.1`, `.a,b` -/
+inductive Sel (α : Type) where
+  | bracket (ss : List (Sub α))
+  | brace (ss : List (Sub α))
+  | dot (y : Nat)
+  | dotInt (k : Nat)
+  | swizzle (y : Nat) (ys : List Nat)
 
 /-- an argument of a call: positional or named -/
 inductive Arg (α : Type) where
@@ -71,7 +82,7 @@ inductive Fac where
   | set (es : List (Ex Fac))
   | recd (bs : List (Bind Fac))
   | map (ms : List (Mapping Fac))
-  | slice (x : Nat) (subs : List (Sub Fac))
+  | slice (x : Nat) (sels : List (Sel Fac))
   | paren (t : Tree Fac)
   | neg (f : Fac)
   | not (f : Fac)
@@ -114,6 +125,18 @@ def sepBy {α : Type} (p : List Tok → Option (α × List Tok)) (sep : Tok) : N
            | none => none)
         else some ([a], r)
       | [] => some ([a], [])
+
+/-- `many0(p)`: elements for as long as `p` accepts; at most `k` of them -/
+def many {α : Type} (p : List Tok → Option (α × List Tok)) : Nat → List Tok → List α × List Tok
+  | 0, ts => ([], ts)
+  | k + 1, ts =>
+    match p ts with
+    | none => ([], ts)
+    | some (a, r) => (a :: (many p k r).1, (many p k r).2)
+
+def pName : List Tok → Option (Nat × List Tok)
+  | .id y :: r => some (y, r)
+  | _ => none
 
 /-- a list that may be empty, closed by `close` -/
 def listTill {α : Type} (p : List Tok → Option (α × List Tok)) (sep close : Tok) (ts : List Tok) : Option (List α × List Tok) :=
@@ -170,11 +193,10 @@ def pFac (g : Gram) : Nat → List Tok → Option (Fac × List Tok)
       (match listTill (pArg g n) .comma .rp r with
        | some (args, r') => some (post (.call x args) r')
        | none => none)
-    | .id x :: .lb :: r =>
-      (match sepBy (pSub g n) .comma r.length r with
-       | some (subs, .rb :: r') => some (post (.slice x subs) r')
-       | _ => none)
-    | .id x :: r => some (post (.var x) r)
+    | .id x :: r =>
+      (match many (pSel g n) r.length r with
+       | ([], r') => some (post (.var x) r')
+       | (sels, r') => some (post (.slice x sels) r'))
     | .lb :: r =>
       (match listTill (fun ts => sepBy (pEx g n) .sp ts.length ts) .semi .rb r with
        | some (rows, r') => some (post (.mat rows) r')
@@ -242,6 +264,26 @@ def pSub (g : Gram) : Nat → List Tok → Option (Sub Fac × List Tok)
     match ts with
     | .colon :: r => some (.all, r)
     | _ => (match pEx g n ts with | some (e, r) => some (.ex e, r) | none => none)
+/-- one subscript after a name -/
+def pSel (g : Gram) : Nat → List Tok → Option (Sel Fac × List Tok)
+  | 0, _ => none
+  | n + 1, ts =>
+    match ts with
+    | .lb :: r =>
+      (match sepBy (pSub g n) .comma r.length r with
+       | some (subs, .rb :: r') => some (.bracket subs, r')
+       | _ => none)
+    | .lc :: r =>
+      (match sepBy (pSub g n) .comma r.length r with
+       | some (subs, .rc :: r') => some (.brace subs, r')
+       | _ => none)
+    | .dot :: .id y :: .swz :: r =>
+      (match sepBy pName .swz r.length r with
+       | some (ys, r') => some (.swizzle y ys, r')
+       | none => none)
+    | .dot :: .id y :: r => some (.dot y, r)
+    | .dot :: .lit k :: r => some (.dotInt k, r)
+    | _ => none
 /-- an argument of a call: `call-arg-with-binding | call-arg` -/
 def pArg (g : Gram) : Nat → List Tok → Option (Arg Fac × List Tok)
   | 0, _ => none
@@ -267,17 +309,13 @@ end
 
 inductive Stmt where
   | define (mu : Bool) (x : Nat) (k : Option Nat) (e : Exp)
-  | assign (x : Nat) (subs : List (Sub Fac)) (e : Exp)
-  | opAssign (x : Nat) (subs : List (Sub Fac)) (k : Nat) (e : Exp)
+  | assign (x : Nat) (sels : List (Sel Fac)) (e : Exp)
+  | opAssign (x : Nat) (sels : List (Sel Fac)) (k : Nat) (e : Exp)
 
-/-- `slice-ref`: a name with an optional bracket subscript -/
-def pTarget (g : Gram) (n : Nat) (ts : List Tok) : Option (Nat × List (Sub Fac) × List Tok) :=
+/-- `slice-ref`: a name with optional subscripts -/
+def pTarget (g : Gram) (n : Nat) (ts : List Tok) : Option (Nat × List (Sel Fac) × List Tok) :=
   match ts with
-  | .id x :: .lb :: r =>
-    (match sepBy (pSub g n) .comma r.length r with
-     | some (subs, .rb :: r') => some (x, subs, r')
-     | _ => none)
-  | .id x :: r => some (x, [], r)
+  | .id x :: r => some (x, (many (pSel g n) r.length r).1, (many (pSel g n) r.length r).2)
   | _ => none
 
 def pDefine (g : Gram) (n : Nat) (mu : Bool) (ts : List Tok) : Option (Stmt × List Tok) :=
@@ -323,7 +361,7 @@ def rFac (g : Gram) : Fac → List Tok
   | .set es => .lc :: rExs g es ++ [.rc]
   | .recd bs => .lc :: rBinds g bs ++ [.rc]
   | .map ms => .lc :: (if ms.isEmpty then [.colon] else rMaps g ms) ++ [.rc]
-  | .slice x subs => .id x :: .lb :: rSubs g subs ++ [.rb]
+  | .slice x sels => .id x :: rSels g sels
   | .paren t => .lp :: rTrm g t ++ [.rp]
   | .neg f => .dash :: rFac g f
   | .not f => .bang :: rFac g f
@@ -354,6 +392,15 @@ def rSubs (g : Gram) : List (Sub Fac) → List Tok
   | [] => []
   | [s] => rSub g s
   | s :: s' :: ss => rSub g s ++ .comma :: rSubs g (s' :: ss)
+def rSel (g : Gram) : Sel Fac → List Tok
+  | .bracket ss => .lb :: rSubs g ss ++ [.rb]
+  | .brace ss => .lc :: rSubs g ss ++ [.rc]
+  | .dot y => [.dot, .id y]
+  | .dotInt k => [.dot, .lit k]
+  | .swizzle y ys => .dot :: .id y :: .swz :: rSep (fun z => [.id z]) .swz ys
+def rSels (g : Gram) : List (Sel Fac) → List Tok
+  | [] => []
+  | s :: ss => rSel g s ++ rSels g ss
 def rArg (g : Gram) : Arg Fac → List Tok
   | .pos e => rEx g e
   | .named x e => .id x :: .colon :: rEx g e
@@ -380,8 +427,7 @@ def rEnt (g : Gram) : Ent Fac → List Tok
   | .keyed k v => rEx g k ++ .colon :: rEx g v
   | .bind x k e => .id x :: ((match k with | some k => [.kind k] | none => []) ++ .colon :: rEx g e)
 
-def rTarget (g : Gram) (x : Nat) (subs : List (Sub Fac)) : List Tok :=
-  if subs.isEmpty then [.id x] else .id x :: .lb :: rSubs g subs ++ [.rb]
+def rTarget (g : Gram) (x : Nat) (sels : List (Sel Fac)) : List Tok := .id x :: rSels g sels
 
 def rStmt (g : Gram) : Stmt → List Tok
   | .define mu x k e =>
